@@ -1,3 +1,4 @@
 SPECIFICATION Spec
 CONSTANT Profile = "quick"
+INVARIANT Consistent
 INVARIANT Export
